@@ -17,6 +17,8 @@ def run(model, rep, tier):
     r4_pruning(ctx, rep)
     r5_package_restricts(ctx, rep)
     r6_longest_prefix_first(ctx, rep)
+    r7_prefix_is_directory_boundary(ctx, rep)
+    r8_which_files_are_test_files(ctx, rep)
     rep.units['cfg'] = ctx.cfg_stats
 
 
@@ -435,3 +437,245 @@ def tested_name_is_imported_name(ctx, rep, R):
               'accept(%s) vs import_name(%s)' % ([norm(t.args[0]) for t in tests],
                                                  [norm(c.args[0]) for c in impc]),
               key='filter-same-name', func=fi.qualname, where=ctx.where(fi, fi.node))
+
+
+def r7_prefix_is_directory_boundary(ctx, rep, R='C14.R7'):
+    rep.rule(R, 'a search-root prefix is matched at a directory boundary.  Relational: either the '
+             'first components stored in options.prefix end in the separator (<path> + os.path.sep) '
+             'and the consumers test startswith(prefix) and cut len(prefix) characters, or they are '
+             'stored bare and every consumer tests startswith(prefix + sep) and cuts len(prefix) + 1. '
+             'A bare prefix tested bare makes /p/src/lib "contain" /p/src/lib_x: its modules get the '
+             'dotted name of a module of the other root (loaded twice, or not at all)')
+    m = ctx.model
+    fi = m.func('options.get_options')
+
+    def is_sep(e):
+        return (m.resolve_dotted(fi.module, dotted(e)) or dotted(e) or '') in ('os.path.sep', 'os.sep') or \
+            (isinstance(e, ast.Constant) and e.value in ('/', '\\'))
+    stores = [n for n in ast.walk(fi.node) if isinstance(n, ast.Assign) and
+              any(dotted(t) == 'options.prefix' for t in n.targets)]
+    rep.floor(R, len(stores), 1, 'stores to options.prefix')
+    with_sep = None
+    from .common import single_assignments
+    sa_ = single_assignments(fi.node)
+    for st in stores:
+        v = st.value
+        for _ in range(3):
+            if isinstance(v, ast.Call) and call_name(v) in ('sorted', 'list', 'tuple') and v.args:
+                v = v.args[0]
+            if isinstance(v, ast.Name) and v.id in sa_:
+                v = sa_[v.id]
+        if isinstance(v, (ast.ListComp, ast.GeneratorExp)) and isinstance(v.elt, ast.Tuple) and v.elt.elts:
+            first = v.elt.elts[0]
+            with_sep = isinstance(first, ast.BinOp) and isinstance(first.op, ast.Add) and is_sep(first.right)
+        elif any(isinstance(x, ast.Attribute) and dotted(x) == 'options.prefix' for x in ast.walk(st.value)):
+            continue                 # a re-ordered copy of itself: judged at the other store
+        elif isinstance(v, ast.Call) and call_name(v) in ('list', 'tuple', 'sorted') or \
+                (dotted(v) or '').endswith('test_path'):
+            with_sep = False
+        else:
+            with_sep = False if with_sep is None else with_sep
+    if with_sep is None:
+        rep.assume('%s not applied: the way options.prefix is built is not of a form this rule reads' % R)
+        return
+    n = 0
+    for q in ('find.find_suites', 'find.test_dirs'):
+        fs = m.func(q)
+        loopvars = set()
+        for lp in ast.walk(fs.node):
+            if isinstance(lp, ast.For) and (dotted(lp.iter) or '').endswith('options.prefix'):
+                t = lp.target
+                if isinstance(t, ast.Tuple) and t.elts and isinstance(t.elts[0], ast.Name):
+                    loopvars.add(t.elts[0].id)
+            if isinstance(lp, ast.comprehension) and (dotted(lp.iter) or '').endswith('options.prefix'):
+                t = lp.target
+                if isinstance(t, ast.Tuple) and t.elts and isinstance(t.elts[0], ast.Name):
+                    loopvars.add(t.elts[0].id)
+        for c in ast.walk(fs.node):
+            if isinstance(c, ast.Call) and isinstance(c.func, ast.Attribute) and c.func.attr == 'startswith' \
+                    and c.args:
+                a0 = c.args[0]
+                bare = isinstance(a0, ast.Name) and a0.id in loopvars
+                plus = isinstance(a0, ast.BinOp) and isinstance(a0.op, ast.Add) and \
+                    isinstance(a0.left, ast.Name) and a0.left.id in loopvars and is_sep(a0.right)
+                if not (bare or plus):
+                    continue
+                n += 1
+                ok = (with_sep and bare) or (not with_sep and plus)
+                rep.check(ok, R, '%s: %s tests a directory boundary (prefixes are stored %s the separator)'
+                          % (q, norm(c), 'with' if with_sep else 'without'),
+                          '%s: %s -- the prefixes of options.prefix are stored %s the trailing separator, '
+                          'so this is %s' % (q, norm(c), 'with' if with_sep else 'WITHOUT',
+                                             'a doubled separator that never matches' if with_sep else
+                                             'a plain string-prefix test: a sibling directory whose name '
+                                             'merely extends the root name counts as inside it'),
+                          key='boundary:%s:%s' % (q, norm(c)), func=fs.qualname, where=ctx.where(fs, c))
+        for sub in ast.walk(fs.node):
+            if isinstance(sub, ast.Subscript) and isinstance(sub.slice, ast.Slice) and \
+                    sub.slice.lower is not None and sub.slice.upper is None:
+                lo = sub.slice.lower
+                base = lo
+                off = 0
+                if isinstance(lo, ast.BinOp) and isinstance(lo.op, ast.Add) and \
+                        isinstance(lo.right, ast.Constant) and isinstance(lo.right.value, int):
+                    base, off = lo.left, lo.right.value
+                if isinstance(base, ast.Call) and call_name(base) == 'len' and len(base.args) == 1 and \
+                        isinstance(base.args[0], ast.Name) and base.args[0].id in loopvars:
+                    n += 1
+                    want = 0 if with_sep else 1
+                    rep.check(off == want, R, '%s: the module path is the file name minus the prefix%s (%s)'
+                              % (q, '' if with_sep else ' and the separator', norm(sub)),
+                              'the prefix is cut off with %s although the prefixes are stored %s the '
+                              'separator: the module name loses its first character or keeps the separator'
+                              % (norm(sub), 'with' if with_sep else 'without'), key='prefix-cut:' + q,
+                              func=fs.qualname, where=ctx.where(fs, sub))
+    rep.floor(R, n, 2, 'prefix tests / removals in find_suites and test_dirs')
+
+
+def r8_which_files_are_test_files(ctx, rep, R='C14.R8'):
+    rep.rule(R, 'which files of a walked directory are test modules (decision table): a file with a '
+             'usable extension is recorded iff its name matches --tests-pattern, or the directory is a '
+             'tests package (its name matches --tests-pattern and it has an __init__) and the file '
+             'name matches --test-file-pattern.  Decided by evaluating the guards that dominate every '
+             'recording site of find_test_files_ over all 32 valuations of (dir matches, has '
+             '__init__, name matches tests-pattern, name matches test-file-pattern, extension ok)')
+    from sa.variance import UNKNOWN, eval_guard
+    from .common import expander, guard_literals, single_assignments
+    fi = ctx.model.func('find.find_test_files_')
+    sa_ = single_assignments(fi.node)
+    la = {}
+    for n in ast.walk(fi.node):
+        if isinstance(n, ast.Assign) and len(n.targets) == 1 and isinstance(n.targets[0], ast.Name):
+            la.setdefault(n.targets[0].id, []).append(n.value)
+    nested = {n.name: n for n in ast.walk(fi.node) if isinstance(n, ast.FunctionDef) and n is not fi.node}
+    # recording sites: calls of a nested recorder, or stores into a dict, inside a loop over the files
+    sites = []
+    for lp in ast.walk(fi.node):
+        if not (isinstance(lp, ast.For) and isinstance(lp.target, ast.Name)):
+            continue
+        if not (isinstance(lp.iter, ast.Name) and lp.iter.id in ('files',) or
+                (isinstance(lp.iter, ast.Name) and any('files' == norm(v) for v in la.get(lp.iter.id, [])))):
+            continue
+        fv = lp.target.id
+        for n in ast.walk(lp):
+            if isinstance(n, ast.Call) and isinstance(n.func, ast.Name) and n.func.id in nested and \
+                    any(is_name(a, fv) for a in n.args):
+                sites.append((n, fv))
+            if isinstance(n, ast.Assign) and any(isinstance(t, ast.Subscript) for t in n.targets) and \
+                    any(isinstance(x, ast.Name) and x.id == fv for x in ast.walk(n.value)) or \
+                    (isinstance(n, ast.Assign) and any(isinstance(t, ast.Subscript) for t in n.targets) and
+                     any(isinstance(x, ast.Name) and any(
+                         isinstance(v, ast.AST) and fv in norm(v) for v in la.get(x.id, []))
+                         for x in ast.walk(n.value))):
+                if not any(n is x for f_ in nested.values() for x in ast.walk(f_)):
+                    sites.append((n, fv))
+    if not sites:
+        rep.assume('%s not applied: no recording site found in a loop over the file names' % R)
+        return
+
+    def classify(call):
+        """'A' tests-pattern on the file name, 'B' test-file-pattern on it, 'D1' tests-pattern on the
+        directory name, 'D2' package marker, or None"""
+        f = dotted(call.func) or ''
+        src = norm(la[f][0]) if f in la and len(la[f]) == 1 else f
+        arg = call.args[-1] if call.args else None
+        argsrc = ''
+        if isinstance(arg, ast.Name):
+            argsrc = ' '.join(norm(v) for v in la.get(arg.id, []))
+        elif arg is not None:
+            argsrc = norm(arg)
+        if f.endswith('contains_init_py'):
+            return 'D2'
+        if src.endswith('test_file_pattern'):
+            return 'B' if 'strip_py_ext' in argsrc else None
+        if src.endswith('tests_pattern'):
+            if 'strip_py_ext' in argsrc:
+                return 'A'
+            if 'dirname' in argsrc:
+                return 'D1'
+        return None
+    exp0 = expander(fi.node, lambda v: True)
+    # a predicate chosen by an if/else (``if c: f = P else: f = Q`` ... ``f(x)``) is the call
+    # ``(c and P(x)) or (not c and Q(x))``
+    chosen = {}
+    for st in ast.walk(fi.node):
+        if isinstance(st, ast.If) and len(st.body) >= 1 and len(st.orelse) >= 1:
+            b = [x for x in st.body if isinstance(x, ast.Assign) and len(x.targets) == 1 and
+                 isinstance(x.targets[0], ast.Name) and isinstance(x.value, (ast.Name, ast.Attribute))]
+            o = [x for x in st.orelse if isinstance(x, ast.Assign) and len(x.targets) == 1 and
+                 isinstance(x.targets[0], ast.Name) and isinstance(x.value, (ast.Name, ast.Attribute))]
+            for x in b:
+                for y in o:
+                    if x.targets[0].id == y.targets[0].id and len(la.get(x.targets[0].id, [])) == 2:
+                        chosen[x.targets[0].id] = (st.test, x.value, y.value)
+    import copy as _copy
+
+    class Choose(ast.NodeTransformer):
+        def visit_Call(self, n):
+            self.generic_visit(n)
+            if isinstance(n.func, ast.Name) and n.func.id in chosen:
+                c, p_, q_ = chosen[n.func.id]
+                a = _copy.deepcopy(n)
+                a.func = _copy.deepcopy(p_)
+                b = _copy.deepcopy(n)
+                b.func = _copy.deepcopy(q_)
+                return ast.BoolOp(op=ast.Or(), values=[
+                    ast.BoolOp(op=ast.And(), values=[_copy.deepcopy(c), a]),
+                    ast.BoolOp(op=ast.And(), values=[ast.UnaryOp(op=ast.Not(), operand=_copy.deepcopy(c)), b])])
+            return n
+
+    def exp(e):
+        return exp0(ast.fix_missing_locations(Choose().visit(_copy.deepcopy(e))))
+    bad_case = None
+    unknown = None
+    guards = []
+    for n, fv in sites:
+        lits = guard_literals(ctx, fi, n)
+        guards.append((n, [(exp(e), pos, e) for e, pos in lits]))
+    for bits in range(32):
+        D1, D2, A, B, N = [bool(bits >> k & 1) for k in range(5)]
+        val = {'D1': D1, 'D2': D2, 'A': A, 'B': B}
+        included = False
+        for n, lits in guards:
+            ok_all = True
+            for e2, pos, e in lits:
+                env = {}
+                for c in ast.walk(e2):
+                    if isinstance(c, ast.Call):
+                        k = classify(c)
+                        if k:
+                            env[norm(c)] = val[k]
+                for x in ast.walk(e2):
+                    if isinstance(x, ast.Name) and any('strip_py_ext' in norm(v) for v in la.get(x.id, [])
+                                                       if isinstance(v, ast.AST)):
+                        env[x.id] = 'name' if N else None
+                    if isinstance(x, ast.Call) and (dotted(x.func) or '').endswith('strip_py_ext'):
+                        env[norm(x)] = 'name' if N else None
+                v = eval_guard(e2, env)
+                if v is UNKNOWN:
+                    unknown = norm(e)
+                    ok_all = None
+                    break
+                if bool(v) != pos:
+                    ok_all = False
+                    break
+            if ok_all is None:
+                break
+            if ok_all:
+                included = True
+        if unknown:
+            break
+        want = N and (A or (D1 and D2 and B))
+        if included != want and bad_case is None:
+            bad_case = (D1, D2, A, B, N, included)
+    if unknown:
+        rep.assume('%s not applied: the guard %s of a recording site is outside the finite domain' % (R, unknown))
+        return
+    rep.check(bad_case is None, R, 'a file is recorded iff ext ok and (tests-pattern(name) or (tests '
+              'package and test-file-pattern(name))) -- 32 cases, %d recording site(s)' % len(sites),
+              'directory matches tests-pattern=%s, has __init__=%s, file matches tests-pattern=%s, '
+              'file matches test-file-pattern=%s, extension ok=%s: the file is %s' % (
+                  bad_case[:5] + ('recorded although it must not be' if bad_case[5] else
+                                  'NOT recorded: a module matching the patterns is never loaded',))
+              if bad_case else '', key='file-decision-table', func=fi.qualname,
+              where=ctx.where(fi, sites[0][0]))
